@@ -66,6 +66,10 @@ pub enum OodsVerifyError {
     EvaluationInvalid { expected: Felt, actual: Felt },
     #[error("oods values length invalid: expected {expected}, actual {actual}")]
     InvalidLength { expected: usize, actual: usize },
+    #[error("decommitment length does not match the number of queries and columns")]
+    InvalidDecommitmentLength,
+    #[error("OodsPolyEval Error")]
+    OodsPolyEvalError,
     #[error("CompositionPolyEval Error")]
     CompositionPolyEvalError(#[from] CompositionPolyEvalError),
 }
@@ -80,6 +84,10 @@ pub enum OodsVerifyError {
     EvaluationInvalid { expected: Felt, actual: Felt },
     #[error("oods values length invalid: expected {expected}, actual {actual}")]
     InvalidLength { expected: usize, actual: usize },
+    #[error("decommitment length does not match the number of queries and columns")]
+    InvalidDecommitmentLength,
+    #[error("OodsPolyEval Error")]
+    OodsPolyEvalError,
     #[error("CompositionPolyEval Error")]
     CompositionPolyEvalError(#[from] CompositionPolyEvalError),
 }
@@ -92,18 +100,18 @@ pub fn eval_oods_boundary_poly_at_points<Layout: LayoutTrait>(
     points: &[Felt],
     decommitment: &trace::Decommitment,
     composition_decommitment: &table::types::Decommitment,
-) -> Vec<Felt> {
-    assert!(
+) -> Result<Vec<Felt>, OodsVerifyError> {
+    ensure!(
         decommitment.original.values.len() == points.len() * n_original_columns,
-        "Invalid value"
+        OodsVerifyError::InvalidDecommitmentLength
     );
-    assert!(
+    ensure!(
         decommitment.interaction.values.len() == points.len() * n_interaction_columns,
-        "Invalid value"
+        OodsVerifyError::InvalidDecommitmentLength
     );
-    assert!(
+    ensure!(
         composition_decommitment.values.len() == points.len() * Layout::CONSTRAINT_DEGREE,
-        "Invalid value"
+        OodsVerifyError::InvalidDecommitmentLength
     );
 
     let mut evaluations = Vec::with_capacity(points.len());
@@ -125,16 +133,19 @@ pub fn eval_oods_boundary_poly_at_points<Layout: LayoutTrait>(
                 [i * Layout::CONSTRAINT_DEGREE..(i + 1) * Layout::CONSTRAINT_DEGREE],
         );
 
-        evaluations.push(Layout::eval_oods_polynomial(
-            public_input,
-            &column_values,
-            &eval_info.oods_values,
-            &eval_info.constraint_coefficients,
-            &point,
-            &eval_info.oods_point,
-            &eval_info.trace_generator,
-        ).unwrap());
+        evaluations.push(
+            Layout::eval_oods_polynomial(
+                public_input,
+                &column_values,
+                &eval_info.oods_values,
+                &eval_info.constraint_coefficients,
+                &point,
+                &eval_info.oods_point,
+                &eval_info.trace_generator,
+            )
+            .map_err(|_| OodsVerifyError::OodsPolyEvalError)?,
+        );
     }
 
-    evaluations
+    Ok(evaluations)
 }
